@@ -45,6 +45,21 @@ def cfg_text(maxn, maxni, maxfail):
             "INVARIANT PrefixInv DoneInv GerrIsItem NoHang\nPROPERTY Terminates\nCHECK_DEADLOCK FALSE\n" % (maxn, maxni, maxfail))
 
 
+def run_cases_retrying(ctx, binary, adapter, cases, timeout_ms, total_timeout):
+    """The adapter's watchdog classifies hangs from goroutine dumps.  The runtime's per-case deadline is only a
+    backstop, and on a starved machine it can fire on a healthy case: such cases are run again, alone and with a
+    longer deadline, before they count."""
+    vs = ctx.run_cases(binary, adapter, cases, timeout_ms=timeout_ms, total_timeout=total_timeout)
+    late = [v["id"] for v in vs if v.get("key") == "timeout"]
+    if late:
+        ctx.note("%d case(s) hit the runtime deadline; re-running them alone" % len(late))
+        again = ctx.run_cases(binary, adapter, [cases[i] for i in late], workers=2, timeout_ms=4 * timeout_ms,
+                              total_timeout=total_timeout, name="retry")
+        byid = {v["id"]: v for v in again}
+        vs = [byid.get(v["id"], v) for v in vs]
+    return vs
+
+
 def run(ctx):
     quick = ctx.quick
     os.environ.setdefault("JAVA_TOOL_OPTIONS", "-XX:ParallelGCThreads=2 -XX:TieredStopAtLevel=1")
@@ -105,7 +120,7 @@ def run(ctx):
     ctx.sample({k: v for k, v in cases[nmodel + 3].items()})
 
     t2 = time.time()
-    vs = ctx.run_cases(binary, "mappar", cases, timeout_ms=ctx.pick(20000, 30000), total_timeout=ctx.pick(900, 3000))
+    vs = run_cases_retrying(ctx, binary, "mappar", cases, ctx.pick(30000, 40000), ctx.pick(1500, 3000))
     ctx.note("%d runs of the real map-parallel: %.1fs" % (len(cases), time.time() - t2))
     for v in vs:
         c = cases[v["id"]]
